@@ -432,3 +432,83 @@ func c17R7(c *Ctx, r *Report) {
 		r.Bad(rule, "io.CopyN cap", "no size-capped copy found (copyFromZipArchive expected): anchor lost")
 	}
 }
+
+// c18R4: scope predicates compare paths exactly: nothing case-folding is
+// reachable from the functions that decide whether a path is inside a root.
+func c18R4(c *Ctx, r *Report) {
+	const rule = "C18-R4"
+	r.SetFloor(rule, 5)
+	folding := map[string]bool{"strings.EqualFold": true, "strings.ToLower": true, "strings.ToUpper": true, "strings.Title": true, "strings.ToTitle": true,
+		"bytes.EqualFold": true, "bytes.ToLower": true, "bytes.ToUpper": true, "unicode.ToLower": true, "unicode.ToUpper": true, "unicode.SimpleFold": true,
+		"strings.ToLowerSpecial": true, "strings.ToUpperSpecial": true}
+	for _, name := range []string{"database/storage/fstree.(*FSTree).isInScope", "database/storage/fstree.(*FSTree).buildFilePath", "utils.(*DirStructure).EnsureAbsPath",
+		"updater.(*Resource).unpackZipArchive", "updater.(*ResourceRegistry).ScanStorage"} {
+		root := c.Func(name)
+		if root == nil {
+			r.Undecided(rule, name, "anchor function missing")
+			continue
+		}
+		var bad ssa.Instruction
+		var where *ssa.Function
+		for _, f := range c.staticallyReachable(root) {
+			eachInstr(f, func(in ssa.Instruction) {
+				if ci, ok := in.(ssa.CallInstruction); ok && bad == nil && folding[calleeName(ci.Common())] {
+					bad, where = in, f
+				}
+			})
+		}
+		detail := ""
+		if bad != nil {
+			detail = calleeName(bad.(ssa.CallInstruction).Common()) + " in " + fnKey(where)
+		}
+		r.Check(bad == nil, rule, name+" / exact path comparison", "no case-folding function is reachable from the scope decision",
+			"the scope decision uses "+detail+": on a case-sensitive file system a sibling directory whose name differs from the root only in case passes as inside the root", posOf(c, bad))
+	}
+}
+
+// c19R10: the versioned-path converters look at their path only through
+// path.Split: the version is located in / inserted into the file name, directory
+// names that look like a version (or contain dots) are never touched.
+func c19R10(c *Ctx, r *Report) {
+	const rule = "C19-R10"
+	r.SetFloor(rule, 3)
+	for _, name := range []string{"updater.GetIdentifierAndVersion", "updater.GetVersionedPath"} {
+		fn := c.Func(name)
+		if fn == nil {
+			r.Undecided(rule, name, "anchor function missing")
+			continue
+		}
+		p := fn.Params[0]
+		var bad ssa.Instruction
+		nSplit := 0
+		if refs := p.Referrers(); refs != nil {
+			for _, ref := range *refs {
+				if _, isDbg := ref.(*ssa.DebugRef); isDbg {
+					continue
+				}
+				if ci, ok := ref.(ssa.CallInstruction); ok {
+					if n := calleeName(ci.Common()); n == "path.Split" || n == "path/filepath.Split" {
+						nSplit++
+						continue
+					}
+				}
+				if bad == nil {
+					bad = ref
+				}
+			}
+		}
+		r.Check(bad == nil && nSplit > 0, rule, name+" / path parameter "+p.Name()+" only split into directory and file name",
+			"the path is only handed to path.Split; all further work happens on the file-name part",
+			"the whole path (not just its file name) is searched or rewritten: a directory name that looks like a version, or contains a dot, changes the result, so identifier/version pairs no longer convert back", posOf(c, bad))
+	}
+	// the version is searched in the file name
+	if fn := c.Func("updater.GetIdentifierAndVersion"); fn != nil {
+		for _, ci := range callsIn(fn, "regexp.Regexp.FindString") {
+			arg := ci.Common().Args[len(ci.Common().Args)-1]
+			ex, ok := arg.(*ssa.Extract)
+			_, isSplit := isCallTo(arg, "path.Split", "path/filepath.Split")
+			r.Check(ok && isSplit && ex.Index == 1, rule, "updater.GetIdentifierAndVersion / version searched in the file name", "FindString is applied to path.Split's file part",
+				"the version pattern is searched in something else than the file-name part", c.Pos(ci.Pos()))
+		}
+	}
+}
